@@ -106,6 +106,12 @@ fn main() {
         "c23" => asmprops::c23(&mut o, &mut ex, seed, thorough),
         "c24" => asmprops::c24(&mut o, &mut ex, seed, thorough),
         "c21" => asmprops::c21(&mut o, &mut ex, seed, thorough),
+        "c07" => asmprops::c07(&mut o, &mut ex, seed, thorough),
+        "c20" => asmprops::c20(&mut o, &mut ex, seed, thorough, false),
+        "c22" => asmprops::c20(&mut o, &mut ex, seed, thorough, true),
+        "c17" => asmprops::c17(&mut o, &mut ex, seed, thorough, false),
+        "c18" => asmprops::c17(&mut o, &mut ex, seed, thorough, true),
+        "c19" => asmprops::c19(&mut o, &mut ex, seed, thorough),
         "c25" => c25::gen(&mut o, &mut ex, seed, thorough),
         "c34" => c34::gen(&mut o, &mut ex, seed, thorough),
         "c32" => c32::gen(&mut o, &mut ex, seed, thorough),
